@@ -69,7 +69,10 @@ func (v *Vue) evalAttributes(ctx VueContext, n *html.Node) (map[string]any, erro
 			emitted[boundName] = boundValue
 		default:
 			var err error
-			if containsInterpolation(val) {
+			// The value of a directive (v-show, v-if, ...) is an expression for its handler, which
+			// may run after this pass: it stays template text. Interpolating it would hand the
+			// handler a data value to evaluate as code. Directives are never written to the output
+			if containsInterpolation(val) && !shouldIgnoreAttr(key) {
 				boundValue, err = v.interpolate(ctx, val)
 				if err != nil {
 					return nil, fmt.Errorf("error evaluating attr %s: %w", boundName, err)
